@@ -340,3 +340,28 @@ Example ex_bad_unobserved_id :
   monitor (Hdr 10 [1%N] [1%N; 2%N] [(ex_op, 1%N); (ex_op2, 2%N)] 0 1
              (Obs 10 None [(1%N, ex_view 10 0)] [(1%N, 0); (2%N, 0)]), []) = 1%N.
 Proof. vm_compute. reflexivity. Qed.
+
+(* follow-up: set_execute_operation (the self-administration path) on an operation that is already
+   Done reported as a success - "executed before" by the sibling entry path *)
+Example ex_bad_set_execute_again :
+  monitor (ex_hdr, ex_prefix ++ [(Advance 5, OkN, ex_obs 15 (Some 5) 15 15 0 0);
+                                 (SetExecute ex_op, OkN, ex_obs 15 (Some 5) 1 15 0 0);
+                                 (SetExecute ex_op, OkN, ex_obs 15 (Some 5) 1 15 0 0)]) = 6%N.
+Proof. vm_compute. reflexivity. Qed.
+(* a successful set_execute_operation that leaves the operation un-marked (still Ready) *)
+Example ex_bad_set_execute_unmarked :
+  monitor (ex_hdr, ex_prefix ++ [(Advance 5, OkN, ex_obs 15 (Some 5) 15 15 0 0);
+                                 (SetExecute ex_op, OkN, ex_obs 15 (Some 5) 15 15 0 0)]) = 5%N.
+Proof. vm_compute. reflexivity. Qed.
+(* execute reported as a success although the target invocation cannot have succeeded (the target is
+   the timelock itself / an account / refuses): tgt_ok = false *)
+Example ex_bad_execute_without_target :
+  monitor (ex_hdr, ex_prefix ++ [(Advance 5, OkN, ex_obs 15 (Some 5) 15 15 0 0);
+                                 (Execute ex_op false, OkN, ex_obs 15 (Some 5) 1 15 0 0)]) = 5%N.
+Proof. vm_compute. reflexivity. Qed.
+(* a re-scheduled operation that keeps the ready ledger of its cancelled first scheduling *)
+Example ex_bad_stale_ready_ledger :
+  monitor (ex_hdr, ex_prefix ++ [(Cancel 1, OkN, ex_obs 10 (Some 5) 0 15 0 0);
+                                 (Advance 2, OkN, ex_obs 12 (Some 5) 0 15 0 0);
+                                 (Schedule ex_op 5, OkI 1, ex_obs 12 (Some 5) 15 15 0 0)]) = 6%N.
+Proof. vm_compute. reflexivity. Qed.
